@@ -151,9 +151,13 @@ class Ctx:
             # an exception raised INSIDE felupe on a spec-issued case is a finding about felupe (the public API must return a value
             # on every valid case), not a failure of the machinery: report it (clause NoException) and judge the records written so far
             frames = re.findall(r'File "([^"]+)", line (\d+), in (\S+)', p.stderr)
-            last = frames[-1] if frames else None
             lib = os.environ.get("VERIF_REPO_SRC") or "/repo/src"
-            if last and (last[0].startswith(lib) or "/felupe/" in last[0]) and "/verif/harness" not in last[0]:
+            # the exception belongs to felupe if, below the last frame of the harness, the stack passes through felupe (it may
+            # surface in numpy / scipy underneath): report the deepest felupe frame
+            hidx = max([n for n, fr in enumerate(frames) if "/verif/harness" in fr[0]], default=-1)
+            inlib = [fr for fr in frames[hidx + 1:] if (fr[0].startswith(lib) or "/felupe/" in fr[0]) and "/verif/harness" not in fr[0]]
+            last = inlib[-1] if inlib else None
+            if last:
                 err = (p.stderr.strip().splitlines() or ["?"])[-1][:200]
                 self.failures.append({"id": "%s:exception@%s:%s" % (name, os.path.basename(last[0]), last[1]), "clause": "NoException",
                                       "module": driver, "detail": err})
